@@ -3,7 +3,10 @@ use std::borrow::Cow;
 use std::collections::HashSet;
 #[cfg(prqlc_verif)]
 use prqlc_parser::verif_hash::HashSet;
+#[cfg(not(prqlc_verif))]
 use std::sync::OnceLock;
+#[cfg(prqlc_verif)]
+use crate::verif_sync::OnceLock;
 
 use regex::Regex;
 
